@@ -11,3 +11,4 @@ From HV Require Export PropsEvents.
 From HV Require Export PropsTree.
 From HV Require Export PropsClusterNet.
 From HV Require Export PropsRegistry.
+From HV Require Export PropsRemote.
